@@ -58,7 +58,16 @@ class Path:
         self.bounded = None  # set to a label when a loop was unrolled to a bound on this path
         self.notes = []
         self.model_hook = None  # callable(model) -> json
+        self.bounded_inputs = set()  # input descriptors that cover only a stated finite scope (ListOf / KeyedDict)
         self.seq_lens = []  # length terms of symbolic sequences (to ask the solver for small counter-models)
+
+    def bound_label(self):
+        parts = []
+        if self.bounded:
+            parts.append(self.bounded)
+        if self.bounded_inputs:
+            parts.append("bounded input: " + "; ".join(sorted(self.bounded_inputs)))
+        return " & ".join(parts) if parts else None
 
     # -- symbols
     def fresh(self, base: str) -> str:
@@ -138,7 +147,7 @@ class Path:
     def oblige(self, name: str, kind: str, claim, detail: str = "") -> bool:
         """Check pc => claim; record; afterwards assume the claim. Returns True when discharged."""
         if claim is True:
-            self.obligations.append(Obligation(name, kind, "discharged", detail=detail, path_id=self.path_id, bounded=self.bounded))
+            self.obligations.append(Obligation(name, kind, "discharged", detail=detail, path_id=self.path_id, bounded=self.bound_label()))
             return True
         if claim is False:
             claim = z3.BoolVal(False)
@@ -170,7 +179,7 @@ class Path:
             s2.add(neg)
             smt2 = s2.to_smt2()
         self.obligations.append(
-            Obligation(name, kind, verdict, model=model, detail=detail, path_id=self.path_id, solver_s=dt, smt2=smt2, bounded=self.bounded)
+            Obligation(name, kind, verdict, model=model, detail=detail, path_id=self.path_id, solver_s=dt, smt2=smt2, bounded=self.bound_label())
         )
         if verdict != "refuted":
             try:
